@@ -29,6 +29,7 @@ type Program struct {
 	globIDs   map[string]int
 	globInfo  map[*ssa.Global]*globalInfo
 	fset      *token.FileSet
+	assumed   []string
 }
 
 type globalInfo struct {
